@@ -84,6 +84,20 @@ func c06Form(op c06Op) string {
 		return fmt.Sprintf("(setq %s (%s %s %s))", op.Dst, op.Op, op.Src, op.Src2)
 	case "remove", "delete", "member":
 		return fmt.Sprintf("(setq %s (%s %d %s))", op.Dst, op.Op, op.A, op.Src)
+	case "remove-fe", "delete-fe":
+		return fmt.Sprintf("(setq %s (%s %d %s :from-end t))", op.Dst, strings.TrimSuffix(op.Op, "-fe"), op.A, op.Src)
+	case "remove-cnt":
+		return fmt.Sprintf("(setq %s (remove %d %s :count 1))", op.Dst, op.A, op.Src)
+	case "remove-fecnt":
+		return fmt.Sprintf("(setq %s (remove %d %s :from-end t :count 1))", op.Dst, op.A, op.Src)
+	case "substitute":
+		return fmt.Sprintf("(setq %s (substitute 9 %d %s))", op.Dst, op.A, op.Src)
+	case "remove-dup":
+		return fmt.Sprintf("(setq %s (remove-duplicates %s))", op.Dst, op.Src)
+	case "union", "set-difference":
+		return fmt.Sprintf("(setq %s (%s %s %s))", op.Dst, op.Op, op.Src, op.Src2)
+	case "reduce-key":
+		return fmt.Sprintf("(setq %s (list (reduce #'+ %s :key #'1+ :initial-value %d)))", op.Dst, op.Src, op.A)
 	case "mapcar":
 		return fmt.Sprintf("(setq %s (mapcar #'+ %s))", op.Dst, op.Src)
 	case "cons":
